@@ -153,7 +153,7 @@ def vmware_leg(ctx):
 def run(ctx):
     vmware_leg(ctx)
     r = ctx.rng
-    n = ctx.n(70, 1000)
+    n = ctx.n(220, 1500)
     lines, checks = [], []
     with Workdir():
         for si in range(n):
